@@ -57,7 +57,7 @@ def full_index(crate_dir):
     """name -> metadata for every harness the generator knows (independent of the current restriction)."""
     gen = os.path.join(crate_dir, 'gen_list.py')
     p = os.path.join(crate_dir, 'src', 'harness_index.json')
-    if not os.path.exists(p) and os.path.exists(gen):
+    if os.path.exists(gen) and (not os.path.exists(p) or os.path.getmtime(p) < os.path.getmtime(gen)):
         tmp = os.path.join(crate_dir, 'src', 'harness_list.rs.idx')
         subprocess.run([sys.executable, gen, tmp], check=True, cwd=crate_dir)
         os.remove(tmp)
